@@ -23,6 +23,6 @@ theorem getI_of_nat {α} {xs : List α} {r : Nat} (site : String) (h : r < xs.le
     getI xs (r : Int) site = .ok xs[r] := by
   unfold getI
   rw [if_pos (Int.natCast_nonneg r)]
-  simpa using getE_of_lt site h
+  simp [getE_of_lt site h]
 
 end Exetera.Journal
